@@ -64,6 +64,11 @@ pub struct H2Peer {
     pub foreign_answers: Vec<(u32, String)>,
     pub frames_in: u64,
     peer_settings_seen: bool,
+    /// send a PING after every `ping_every` bytes of DATA moved in either direction (0 = never)
+    pub ping_every: u64,
+    ping_acc: u64,
+    pub pings_sent: u64,
+    pub ping_acks: u64,
 }
 
 impl H2Peer {
@@ -127,7 +132,7 @@ impl H2Peer {
         H2Peer { sh, server, fb: FrameBuf::default(), hp: Hpack::default(), ctl: VecDeque::new(), streams: Vec::new(), by_sid: HashMap::new(),
                  conn_send_window: 65535, peer_initial_window: 65535, peer_max_frame: 16384, my_initial_window: w0, my_conn_window: conn_window.max(65535),
                  conn_consumed: 0, need_preface: false, rr: 0, dead: false, closing: CloseAction::None, goaway: None, protocol_errors: Vec::new(), plan: None,
-                 hdr_acc: None, foreign_answers: Vec::new(), frames_in: 0, peer_settings_seen: false }
+                 hdr_acc: None, foreign_answers: Vec::new(), frames_in: 0, peer_settings_seen: false, ping_every: 0, ping_acc: 0, pings_sent: 0, ping_acks: 0 }
     }
 
     fn release(&mut self, i: usize) {
@@ -286,6 +291,9 @@ impl H2Peer {
                 }
             }
             PING => {
+                if f.flags & FLAG_ACK != 0 {
+                    self.ping_acks += 1;
+                }
                 if f.flags & FLAG_ACK == 0 {
                     let mut d = [0u8; 8];
                     d.copy_from_slice(&f.payload[..8.min(f.payload.len())]);
@@ -324,6 +332,7 @@ impl H2Peer {
             DATA => {
                 let wire = f.payload.len() as u64;
                 self.conn_consumed += wire;
+                self.note_bytes(wire);
                 let Some(&i) = self.by_sid.get(&f.sid) else {
                     return;
                 };
@@ -370,6 +379,18 @@ impl H2Peer {
                 self.goaway = Some((f.u32_at(0).unwrap_or(0) & 0x7fff_ffff, f.u32_at(4).unwrap_or(0)));
             }
             _ => {}
+        }
+    }
+
+    fn note_bytes(&mut self, n: u64) {
+        if self.ping_every == 0 {
+            return;
+        }
+        self.ping_acc += n;
+        if self.ping_acc >= self.ping_every {
+            self.ping_acc = 0;
+            self.pings_sent += 1;
+            self.ctl.push_back(Seg::meta(Frame::ping(self.pings_sent.to_be_bytes(), false).encode()));
         }
     }
 
@@ -422,6 +443,10 @@ impl H2Peer {
                 if s.off >= a {
                     s.aborted = true;
                     s.rec.end("abort", "harness resets the stream here");
+                    // RST_STREAM closes the stream in both directions
+                    if let Some(r) = st.recv.as_mut() {
+                        r.end("abort", "stream reset by this endpoint");
+                    }
                     self.rr = i + 1;
                     return Some(Seg::meta(Frame::rst(sid, 8).encode()));
                 }
@@ -497,8 +522,15 @@ impl Machine for H2Peer {
             }
             if let Some(x) = s.send.as_mut() {
                 if !x.rec.ended && (x.armed || !self.server) {
-                    x.aborted = true;
-                    x.rec.end("abort", &format!("connection ended ({why})"));
+                    if x.plan.h2_cl && x.rec.sent >= x.plan.size && x.plan.abort_at.is_none() {
+                        // every byte of the declared length was written: the message is complete for a
+                        // receiver that frames by length, even if END_STREAM had not left yet
+                        x.done = true;
+                        x.rec.end("clean", "declared length met");
+                    } else {
+                        x.aborted = true;
+                        x.rec.end("abort", &format!("connection ended ({why})"));
+                    }
                 }
             }
             self.release(i);
@@ -546,6 +578,7 @@ impl Machine for H2Peer {
             return;
         }
         let mut settle = false;
+        self.note_bytes(len);
         if let Some(s) = self.streams[owner].send.as_mut() {
             if len > 0 {
                 s.rec.sent(off, len);
